@@ -13,16 +13,16 @@ Ltac ev_iso2 := cbv -[Rmult Rdiv Rinv Rplus Rminus Ropp IZR Q2R Req_EM_T Rlt_dec
                       RNum conv_col c_pressure c_loading c_material c_temperature iso_temperature spec_conv p_canon l_canon m_canon
                       m_basis m_unit kelvin_of map].
 
-Theorem convert_loading_step psat M rml rmg T tk rp rm m cp cl cb li pi vb (rl rl' : lrep) :
-  0 < M -> 0 < rml -> 0 < rmg ->
-  convert_loading RNum (mk_state rp rl rm tk T (ads_full psat M rml rmg) m cp cl cb li pi) (l_basis rl') (l_unit rl') vb
-  = SOk (if lrep_eqb rl' rl then mk_state rp rl rm tk T (ads_full psat M rml rmg) m cp cl cb li pi
-         else mk_state rp rl' rm tk T (ads_full psat M rml rmg) m cp
+Theorem convert_loading_step (a : adsorbate RNum) M rml rmg T tk rp rm m cp cl cb li pi vb (rl rl' : lrep) :
+  ads_at a (Some (kelvin_of tk T)) M rml rmg -> 0 < M -> 0 < rml -> 0 < rmg ->
+  convert_loading RNum (mk_state rp rl rm tk T a m cp cl cb li pi) (l_basis rl') (l_unit rl') vb
+  = SOk (if lrep_eqb rl' rl then mk_state rp rl rm tk T a m cp cl cb li pi
+         else mk_state rp rl' rm tk T a m cp
                 (map (spec_conv (l_canon M rml rmg rm rl) (l_canon M rml rmg rm rl')) cl) cb None None).
 Proof.
-  intros HM Hl Hg.
-  pose proof (fun v => c_loading_factor_gen M rml rmg (Some (kelvin_of tk T)) v (Some psat) rm rl rl' HM Hl Hg) as HF.
-  pose proof (iso_temperature_mk rp rl rm tk T (ads_full psat M rml rmg) m cp cl cb li pi) as HK.
+  intros Ha HM Hl Hg.
+  pose proof (fun v => c_loading_factor_at M rml rmg (Some (kelvin_of tk T)) v rm rl rl' a Ha HM Hl Hg) as HF.
+  pose proof (iso_temperature_mk rp rl rm tk T a m cp cl cb li pi) as HK.
   unfold convert_loading. rewrite ?HK. clear HK.
   destruct rl as [[]|[]|[]|[]| |], rl' as [[]|[]|[]|[]| |];
   cbn [l_basis l_unit molunit_name massunit_name volunit_name] in HF;
